@@ -308,7 +308,7 @@ def check_case(ctx, case):
                     inner = q.limit(a, offset=b % 3)
                     outer = select(y for y in inner)
                     window = base[b % 3:b % 3 + a]
-                    lo = case['fn'] and (len(case['fn']) + a) % (n + 3)
+                    lo = (a + b) % (n + 4)      # includes starts beyond the inner window
                     got = norm(outer[lo:])
                     exp = window[lo:]
                     if sorted(got, key=repr) != sorted(exp, key=repr):
